@@ -411,6 +411,9 @@ class Spectrum(object):
             assert sides != ['onesided'], "complex data cannot be onesided (%s provided)" % sides
 
         # If sides is indeed different, update the psd
+        if self.__psd is not None and self.modified is True:
+            # the stored PSD is obsolete: recompute it before converting
+            _ = self.psd
         if self.__psd is not None:
             newpsd = self.get_converted_psd(sides)
             self.__psd = newpsd
